@@ -1101,6 +1101,32 @@ theorem reverse_composition {a b lat h : ℝ} (lon : ℝ) (hp : PropDom a b lat 
     rw [ez, eh']
     exact le_trans r2 (by norm_num)
 
+/-- S7'. the same with the result named at the real level (used by C02): the geodetic coordinates returned for
+    the image of `(lat, lon, h)` are `(φ', lon, h')`, and `toECEF (φ', lon, h')` has the same `x`, `y` and a `z`
+    within 1 mm -/
+theorem reverse_composition_real {a b lat h : ℝ} (lon : ℝ) (hp : PropDom a b lat h) (hl₁ : -π < lon) (hl₂ : lon ≤ π) :
+    ∀ fuel, 8 ≤ fuel → ∃ φ' h' : ℝ,
+      toWGS84 fuel (Ellipsoid.make (of a) (of b)) (toECEF (Ellipsoid.make (of a) (of b)) ⟨of lat, of lon, of h⟩) =
+        some (ofG ⟨φ', lon, h'⟩) ∧
+      (toECEF (Ellipsoid.make a b) ⟨φ', lon, h'⟩).x = (toECEF (Ellipsoid.make a b) ⟨lat, lon, h⟩).x ∧
+      (toECEF (Ellipsoid.make a b) ⟨φ', lon, h'⟩).y = (toECEF (Ellipsoid.make a b) ⟨lat, lon, h⟩).y ∧
+      |(toECEF (Ellipsoid.make a b) ⟨φ', lon, h'⟩).z - (toECEF (Ellipsoid.make a b) ⟨lat, lon, h⟩).z| ≤ 1e-3 := by
+  intro fuel hfuel
+  obtain ⟨φ', h', e, _, _, hb, eh'⟩ := roundtrip_accuracy lon hp hl₁ hl₂ fuel hfuel
+  obtain ⟨r1, r2⟩ := reverse_close hp φ' hb
+  refine ⟨φ', h', e, ?_, ?_, ?_⟩
+  · have ex : (toECEF (Ellipsoid.make a b) ⟨φ', lon, h'⟩).x =
+        (primeVertical (Ellipsoid.make a b) φ' + h') * cos φ' * cos lon := rfl
+    rw [ex, eh', r1]; rfl
+  · have ey : (toECEF (Ellipsoid.make a b) ⟨φ', lon, h'⟩).y =
+        (primeVertical (Ellipsoid.make a b) φ' + h') * cos φ' * sin lon := rfl
+    rw [ey, eh', r1]; rfl
+  · have ez : ∀ g : Geo ℝ, (toECEF (Ellipsoid.make a b) g).z =
+        (primeVertical (Ellipsoid.make a b) g.lat * (1 - (Ellipsoid.make a b).e2) + g.alt) * sin g.lat := by
+      intro g; simp [toECEF]
+    rw [ez, ez, eh']
+    exact le_trans r2 (by norm_num)
+
 /-- S6'. the other end of the antimeridian: geodetic longitude exactly `−π` comes back as `+π` (same meridian),
     with the same accuracy in latitude and height -/
 theorem roundtrip_accuracy_minus_pi {a b lat h : ℝ} (hp : PropDom a b lat h) :
